@@ -12,6 +12,7 @@ import (
 	"sort"
 	"strings"
 	"sync"
+	"sync/atomic"
 	"testing"
 	"testing/iotest"
 	"time"
@@ -100,6 +101,9 @@ func vNovelize(r *rand.Rand, raw string) string {
 	return strings.Join(w, " ")
 }
 
+// vFreshCtr numbers the never-seen words of a process.
+var vFreshCtr int64
+
 func TestVerifC09(t *testing.T) {
 	e := vStart(t, "C09")
 	defer e.finish()
@@ -143,7 +147,18 @@ func TestVerifC09(t *testing.T) {
 			}
 			inputs = append(inputs, []byte(vOOVBlock(r, 2)+vWithNL(raw)))
 			inputs = append(inputs, []byte(vWithNL(vNovelize(r, raw))), []byte("This is version 97."+fmt.Sprint(r.Intn(10))+" of the file\n"+vWithNL(vNovelize(r, byKey["License/Apache-2.0/pristine.txt"]))))
-			inputs = append(inputs, []byte(vWithNL(byKey[large[r.Intn(len(large))]])))
+			li := r.Intn(len(large))
+			if idx%3 == 2 {
+				// every third storm (the G=16 / G=256 ones): the LONGEST of the large licenses,
+				// so that size-dependent paths of scoring (several thousand tokens on both
+				// sides) are in flight in every process, not only when the draw finds them
+				for j := range large {
+					if len(byKey[large[j]]) > len(byKey[large[li]]) {
+						li = j
+					}
+				}
+			}
+			inputs = append(inputs, []byte(vWithNL(byKey[large[li]])))
 			sc := vScenarios()
 			inputs = append(inputs, sc[r.Intn(len(sc))].data)
 			// CR LF line endings: the SAME byte slice is handed to many goroutines, so any
@@ -191,12 +206,37 @@ func TestVerifC09(t *testing.T) {
 			for g := range seeds {
 				seeds[g] = r.Int63()
 			}
+			// never-seen inputs: every odd goroutine opens with a text nobody in this process
+			// has tokenized before (the sequential reference calls above warm up anything
+			// that is keyed by word and lives outside the classifier); its words carry
+			// character references and process-unique suffixes. The reference result is
+			// computed alone AFTER the storm.
+			fresh := make([][]byte, G)
+			freshGot := make([]Results, G)
+			freshDur := make([]time.Duration, G)
+			small := byKey["License/MIT/pristine.txt"]
+			if small == "" {
+				small = raw
+			}
+			for g := 1; g < G; g += 2 {
+				w := strings.Fields(small)
+				for k := 0; k < 6 && len(w) > 20; k++ {
+					n := atomic.AddInt64(&vFreshCtr, 1)
+					w[5+r.Intn(len(w)-10)] = []string{fmt.Sprintf("AT&amp;T%d", n), fmt.Sprintf("&quot;zq%dx&quot;", n), fmt.Sprintf("R&#38;D%d", n), fmt.Sprintf("&copy;%d", n), fmt.Sprintf("zq%d&nbsp;w", n), fmt.Sprintf("&lt;zq%d&gt;", n)}[k]
+				}
+				fresh[g] = []byte(vOOVBlock(r, 1) + vWithNL(strings.Join(w, " ")))
+			}
 			for g := 0; g < G; g++ {
 				wg.Add(1)
 				go func(g int) {
 					defer wg.Done()
 					gr := rand.New(rand.NewSource(seeds[g]))
 					<-start
+					if fresh[g] != nil {
+						b := time.Now()
+						freshGot[g] = c.Match(fresh[g])
+						freshDur[g] = time.Since(b)
+					}
 					for k := 0; k < calls; k++ {
 						i := gr.Intn(len(inputs))
 						if k == 0 && g%2 == 0 {
@@ -303,6 +343,24 @@ func TestVerifC09(t *testing.T) {
 					return
 				}
 			}
+			nfresh := 0
+			for g := range fresh {
+				if fresh[g] == nil {
+					continue
+				}
+				nfresh++
+				if ok, why := vResEqual(ref.Match(fresh[g]), freshGot[g]); !ok {
+					if freshDur[g] >= 800*time.Millisecond {
+						cs.inconclusive("never-seen input of goroutine %d took %v (>= 0.8 s): result equality not judged", g, freshDur[g])
+						continue
+					}
+					cs.setInput(fresh[g])
+					cs.violation("concurrent-result-differs", "goroutine %d of %d, never-seen input (first call of the storm): concurrent result differs from the result of the same call made alone afterwards: %s", g, G, why)
+					return
+				}
+			}
+			cs.observe("never_seen_inputs", nfresh)
+			e.count("never_seen_inputs_matched_concurrently", int64(nfresh))
 			if maxc >= 2 {
 				cs.nontrivial(idx, e.shard, G, mode)
 			}
